@@ -186,7 +186,8 @@ def write_evidence(pid, mod, tier, seed, merged, wall, violations, exhaustive_al
         'wall_s': round(wall, 2),
         'violations': violations,
     }
-    d = ROOT / 'evidence'
+    # runs against a scratch copy (TCV_SRC, used for sensitivity tests) never touch the real evidence
+    d = ROOT / ('evidence-scratch' if os.environ.get('TCV_SRC') else 'evidence')
     d.mkdir(exist_ok=True)
     (d / f'{pid}.json').write_text(json.dumps(doc, indent=1, default=str))
 
